@@ -224,3 +224,67 @@ Section CheckR.
 
   Definition check_all_r : list rbad := flat_map check_kind_r all_kinds.
 End CheckR.
+
+(* ---------------------------------------------------------------- tables against the vocabulary *)
+Section CheckSpec.
+  Variable jw_tables : list (bytes * bool * list wstmt).
+  Variable jr_tables : list (bytes * list rstmt).
+  Variable props_of : kind -> list (bytes * bytes).        (* (term, range tag) from Spec/Properties.v *)
+
+  Definition getter_range (g : bytes) : bytes :=
+    if bytes_eqb g (B "JSONGetItem") || bytes_eqb g (B "JSONGetURIItem") then B "item"
+    else if bytes_eqb g (B "JSONGetItems") then B "items"
+    else if bytes_eqb g (B "JSONGetNaturalLanguageField") then B "text"
+    else if bytes_eqb g (B "JSONGetTime") then B "time"
+    else if bytes_eqb g (B "JSONGetDuration") then B "duration"
+    else if bytes_eqb g (B "JSONGetInt") then B "int"
+    else if bytes_eqb g (B "JSONGetFloat") then B "float"
+    else if bytes_eqb g (B "JSONGetBoolean") then B "bool"
+    else if existsb (bytes_eqb g) [B "GetAPSource"; B "JSONGetActorEndpoints"; B "JSONGetPublicKey"] then B "struct"
+    else B "string".
+
+  Inductive sbad :=
+  | SBadUnrecognised (k : kind)
+  | SBadNotRead (k : kind) (term : bytes)             (* a vocabulary property the decoder ignores *)
+  | SBadNotWritten (k : kind) (term : bytes)
+  | SBadInvented (k : kind) (term : bytes)            (* the decoder reads a term the vocabulary does not give the type *)
+  | SBadRange (k : kind) (term : bytes) (getter : bytes).
+
+  Definition range_fits (want got : bytes) : bool :=
+    bytes_eqb want got
+    || (bytes_eqb want (B "uint") && bytes_eqb got (B "int"))
+    || (bytes_eqb want (B "string") && bytes_eqb got (B "item")).   (* href / rel: read as an item, its link kept *)
+
+  Definition check_kind_spec (k : kind) : list sbad :=
+    match reads_of jr_tables k, entries_of jw_tables k with
+    | Some rs, Some ws =>
+        flat_map (fun p =>
+                    match filter (fun r => bytes_eqb (rf_term r) (fst p)) rs with
+                    | [] => [SBadNotRead k (fst p)]
+                    | r :: _ => if range_fits (snd p) (getter_range (rf_getter r)) then [] else [SBadRange k (fst p) (rf_getter r)]
+                    end
+                    ++ (if existsb (fun w => bytes_eqb (wf_term w) (fst p)) ws then [] else [SBadNotWritten k (fst p)]))
+                 (props_of k)
+        ++ flat_map (fun r => if existsb (fun p => bytes_eqb (fst p) (rf_term r)) (props_of k) then [] else [SBadInvented k (rf_term r)]) rs
+    | _, _ => [SBadUnrecognised k]
+    end.
+
+  Definition check_all_spec : list sbad := flat_map check_kind_spec all_kinds.
+End CheckSpec.
+
+Definition known_getters : list bytes :=
+  [B "JSONGetID"; B "JSONGetType"; B "JSONGetMimeType"; B "JSONGetString"; B "JSONGetIRI"; B "JSONGetLangRefField";
+   B "val.GetStringBytes"; B "val.Get.GetStringBytes"; B "JSONGetNaturalLanguageField"; B "JSONGetItem"; B "JSONGetURIItem";
+   B "JSONGetItems"; B "JSONGetTime"; B "JSONGetDuration"; B "JSONGetInt"; B "JSONGetFloat"; B "JSONGetBoolean";
+   B "GetAPSource"; B "JSONGetActorEndpoints"; B "JSONGetPublicKey"].
+Definition known_read_guards : list bytes :=
+  [B ""; B "x != 0"; B "len(x) > 0"; B "x != nil;GetLink"; B "len(x) > 0;UnmarshalJSON"].
+Definition known_convs : list bytes := [B ""; B "uint"; B "string"; B "ActivityVocabularyType"].
+
+Definition tables_recognised_r (jr_tables : list (bytes * list rstmt)) : bool :=
+  forallb (fun t => forallb (fun s => match s with
+                                      | RProp _ _ g c gd _ => existsb (bytes_eqb g) known_getters && existsb (bytes_eqb c) known_convs
+                                                              && existsb (bytes_eqb gd) known_read_guards
+                                      | RDelegate _ _ _ => true
+                                      | RUnrecognised _ _ => false
+                                      end) (snd t)) jr_tables.
